@@ -3,6 +3,7 @@ import copy
 import re
 from . import smt as z3
 from .parse import parse_mir, Place, Operand, Stmt, Term, match_close
+from . import types as T
 
 
 # ---------------------------------------------------------------- values
@@ -58,8 +59,8 @@ class FnItem:
 
 
 class Closure:
-    def __init__(self, name, caps, parent=None):
-        self.name, self.caps, self.parent = name, caps, parent
+    def __init__(self, name, caps, parent=None, tyenv=None):
+        self.name, self.caps, self.parent, self.tyenv = name, caps, parent, tyenv
 
     def __repr__(self):
         return f"closure<{self.name}>"
@@ -202,6 +203,7 @@ class Ctx:
         self.unwinding = []
         self.called = set()
         self.summ_used = set()
+        self.tyenv = {}
 
     def fresh(self, name, sort):
         self.fresh_n += 1
@@ -335,6 +337,22 @@ class Program:
                 dst = re.sub(r"<.*", "", m.group(2).strip()).split("::")[-1]
                 self.from_index[(src, dst)] = k
 
+    def mk_struct(self, name, **fields):
+        """Adt of a named-field struct with the field order read from the source; missing fields are opaque"""
+        cands = getattr(self, "struct_fields", {}).get(name)
+        if not cands:
+            raise Unsupported(f"struct {name} not found in source")
+        order = next((c for c in cands if all(k in c for k in fields)), None)
+        if order is None:
+            raise Unsupported(f"struct {name}: no definition with fields {sorted(fields)}")
+        return Adt(name, None, [fields.get(k, Opaque("unset-field", k)) for k in order])
+
+    def field_index(self, name, field):
+        for c in getattr(self, "struct_fields", {}).get(name, []):
+            if field in c:
+                return c.index(field)
+        raise Unsupported(f"struct {name} has no field {field}")
+
     def is_handwritten(self, key):
         return key in self.handwritten
 
@@ -429,7 +447,9 @@ class Program:
         return None
 
     # ---- execution
-    def call(self, ctx, fname, args):
+    def call(self, ctx, fname, args, site=None, tyenv=None):
+        """run a MIR function.  site = (caller Func, call Term): generic parameters of the callee are bound by unifying
+        its signature with the caller's types at the call site; tyenv: explicit bindings (harness / closures)"""
         f = self.funcs[fname]
         if f.error:
             raise Unsupported(f"MIR parse error in {f.name}: {f.error}")
@@ -437,10 +457,34 @@ class Program:
         ctx.depth += 1
         if ctx.depth > ctx.max_depth:
             raise BoundExceeded("call depth")
+        saved = ctx.tyenv
+        env = dict(tyenv) if tyenv is not None else {}
+        if site is not None:
+            self.bind_types(f, site, saved, env)
+        elif tyenv is None:
+            env = dict(saved)      # python-level re-entry (summaries calling back): keep the caller's bindings
+        ctx.tyenv = env
         try:
             return self._run(ctx, f, args)
         finally:
             ctx.depth -= 1
+            ctx.tyenv = saved
+
+    def bind_types(self, callee, site, caller_env, out):
+        caller, term = site
+        d = term.data
+        pairs = []
+        if d.get("dest") is not None and not d["dest"].proj:
+            pairs.append((callee.ret_ty, caller.local_tys.get(d["dest"].local, "")))
+        for i, a in enumerate(d["args"]):
+            if a.kind != "const" and not a.place.proj and i < len(callee.param_tys):
+                pairs.append((callee.param_tys[i], caller.local_tys.get(a.place.local, "")))
+        for pat, conc in pairs:
+            if pat and conc:
+                T.unify(pat, T.subst(conc, caller_env), out)
+        # closures and nested fns inherit the bindings of the enclosing generic function
+        for k, v in caller_env.items():
+            out.setdefault(k, v)
 
     def _run(self, ctx, f, args):
         locs = {}
@@ -556,7 +600,7 @@ class Program:
                 argv = [operand(a) for a in t.data["args"]]
                 tg = t.data["targets"]
                 try:
-                    ret = self.dispatch(ctx, f, t.data["callee"], argv)
+                    ret = self.dispatch(ctx, f, t.data["callee"], argv, t)
                 except Panic as e:
                     ctx.cur_fn = f.name
                     bb = self._unwind_target(ctx, tg, e, blk)
@@ -636,7 +680,7 @@ class Program:
         if c.startswith("ZeroSized: "):
             t = c[len("ZeroSized: "):]
             if t.startswith("{closure@"):
-                return Closure(t, [], getattr(ctx, "cur_fn", None))
+                return Closure(t, [], getattr(ctx, "cur_fn", None), dict(ctx.tyenv))
             return FnItem(t)
         if c.endswith("::promoted[0]") or re.search(r"::promoted\[\d+\]$", c):
             name = self.resolve_promoted(c)
@@ -695,7 +739,7 @@ class Program:
         if k == "array":
             return Adt("array", None, [operand(a) for a in rv[1]])
         if k == "closure":
-            return Closure(rv[1], [operand(o) for _, o in rv[2]], f.name)
+            return Closure(rv[1], [operand(o) for _, o in rv[2]], f.name, dict(ctx.tyenv))
         if k == "cast":
             return deref(operand(rv[1])) if rv[3].startswith("PointerCoercion") or rv[3] in ("Transmute", "PtrToPtr") else operand(rv[1])
         if k == "binop":
@@ -719,16 +763,16 @@ class Program:
             return table[op]()
         raise Unsupported("binop " + op)
 
-    def dispatch(self, ctx, f, callee, argv):
+    def dispatch(self, ctx, f, callee, argv, term=None):
         key, selfty, gen = callee_key(callee)
         short = "::".join(key.split("::")[-2:])
         for k in (key, short, key.split("::")[-1]):
             if k in self.summaries:
                 ctx.summ_used.add(k)
-                return self.summaries[k](ctx, Call(self, f, callee, key, selfty, gen, argv))
+                return self.summaries[k](ctx, Call(self, f, callee, key, selfty, gen, argv, ctx.tyenv, term))
         name = self.resolve_local(callee) if not callee.startswith("<") else self.resolve_trait_local(callee, selfty, key)
         if name:
-            return self.call(ctx, name, argv)
+            return self.call(ctx, name, argv, site=(f, term) if (f is not None and term is not None) else None)
         raise Unsupported(f"no summary for {callee}  [key={key}] in {f.name}")
 
     def resolve_trait_local(self, callee, selfty, key):
@@ -773,7 +817,7 @@ class Program:
                 raise Unsupported(f"closure body lookup for {fv.name} (parent {fv.parent}): {len(cands)} candidates")
             name, fn = cands[0]
             by_ref = "(_1: &" in fn.header
-            return self.call(ctx, name, [Ref(Box(fv)) if by_ref else fv] + argv)
+            return self.call(ctx, name, [Ref(Box(fv)) if by_ref else fv] + argv, tyenv=fv.tyenv if fv.tyenv is not None else dict(ctx.tyenv))
         raise Unsupported(f"call_value {fv!r}")
 
 
@@ -784,8 +828,23 @@ class PyFn:
 
 
 class Call:
-    def __init__(self, prog, caller, callee, key, selfty, gen, args):
+    def __init__(self, prog, caller, callee, key, selfty, gen, args, tyenv=None, term=None):
         self.prog, self.caller, self.callee, self.key, self.selfty, self.gen, self.args = prog, caller, callee, key, selfty, gen, args
+        self.tyenv = tyenv or {}
+        self.term = term
+
+    def resolve(self, t):
+        """type text with the caller frame's generic parameters substituted"""
+        return T.subst(t, self.tyenv) if t else t
+
+    def dest_ty(self):
+        """declared type of the call's destination local in the caller (generic parameters substituted)"""
+        if self.term is None or self.caller is None:
+            return None
+        d = self.term.data.get("dest")
+        if d is None or d.proj:
+            return None
+        return self.resolve(self.caller.local_tys.get(d.local))
 
 
 def _has_ref(v):
